@@ -3,7 +3,7 @@
 import json, os
 V = os.path.dirname(os.path.dirname(os.path.abspath(__file__)))
 props = [json.loads(l) for l in open(os.path.join(V, "properties.jsonl"))]
-from manifest_table import CHECKS, ENGINES, NOT_APPLICABLE, NOTES
+from manifest_table import CHECKS, ENGINES, NOT_APPLICABLE, NOTES, ADDENDA
 checks = []
 for pid, c in sorted(CHECKS.items()):
     checks.append({
@@ -13,7 +13,7 @@ for pid, c in sorted(CHECKS.items()):
         "evidence_file": "evidence/%s.json" % pid,
         "replay_cmd_template": "bin/check %s --replay {path}" % pid,
         "engine": c["engine"],
-        "level_claimed": {"category": c.get("level", "model_checking"), "text": c["text"], "design_ref": c["design_ref"]},
+        "level_claimed": {"category": c.get("level", "model_checking"), "text": c["text"] + (" " + ADDENDA[pid] if pid in ADDENDA else ""), "design_ref": c["design_ref"]},
         "level_note": c["note"],
         "technique": c["technique"],
     })
